@@ -91,6 +91,20 @@ def check_category(case):
     eq(cls, ident(sa["dom"]) >> a, a, "left-unit")
     eq(cls, a >> ident(specs.spec_cod(sa)), a, "right-unit")
     eq(cls, a.then(), a, "then-nothing")
+    # the unit laws on a bare box (not wrapped in a diagram by the harness):
+    # both composites are the same value, of the same type
+    plain = [b_ for b_, _ in sa["layers"] if b_["k"] == "box"]
+    if plain:
+        f = specs.box(cls, plain[0])
+        lhs = ident(specs.bdom(plain[0])) >> f
+        rhs = f >> ident(specs.bcod(plain[0]))
+        require(bool(lhs == rhs) and bool(rhs == lhs)
+                and type(lhs) is type(rhs), "C02:unit-laws-on-a-bare-box",
+                lambda: "Id >> f = {!r} ({}) but f >> Id = {!r} ({})".format(
+                    lhs, type(lhs).__name__, rhs, type(rhs).__name__))
+        if cls not in NO_DAGGER:
+            require(bool(lhs[::-1] == rhs[::-1]),
+                    "C02:unit-laws-on-a-bare-box", lambda: repr(lhs))
     ab = a >> b
     if cls not in NO_DAGGER:
         eq(cls, a[::-1][::-1], a, "dagger-involutive")
